@@ -383,7 +383,7 @@ Proof.
     destruct (dp s) eqn:Edp; try discriminate H.
     rewrite Hfree in H. eapply SC_deq; try eassumption; [reflexivity|].
     right. repeat split; assumption.
-Time Qed.
+Qed.
 
 Theorem step_cases s e s' : step s e = Some s' -> step_case s e s'.
 Proof.
@@ -416,7 +416,7 @@ Proof.
   intros H. unfold step_clo, guard in H. destruct e; try discriminate H; bm H; inv_some H;
     unfold clo_enqueue; repeat match goal with |- context [if ?b then _ else _] => destruct b end;
     dbc s; sfu; destruct xs as [xs1 xs2 xs3]; cbn [sess_with sess_store s_counter s_in s_out]; eauto 10.
-Time Qed.
+Qed.
 
 (* dequeuer: session, dp, dying, tokens *)
 Lemma step_deq_shape s e s' : step_deq s e = Some s' ->
@@ -424,9 +424,9 @@ Lemma step_deq_shape s e s' : step_deq s e = Some s' ->
     s' = BC (conn_no s) se (clos s) (gproc s) (gdeq s) (gack s) (gcl s) (ph s) (pp s) d (ap s) (lp s)
             dy (will s) (cw s) (cpp s) (cps s) t1 t2 t3 (ackq s).
 Proof.
-  intros H. unfold step_deq, take_deq in H. destruct (dp s) eqn:Edp; destruct e; try discriminate H; bm H; inv_some H;
+  intros H. unfold step_deq, take_deq, guard in H. destruct (dp s) eqn:Edp; destruct e; try discriminate H; bm H; inv_some H;
     dbc s; sfu; eauto 10.
-Time Qed.
+Qed.
 
 (* acker: ap, dying, tokens, ack queue *)
 Lemma step_ack_shape s e s' : step_ack s e = Some s' ->
@@ -437,7 +437,7 @@ Proof.
   intros H. unfold step_ack in H. destruct (ap s) eqn:Eap; destruct e; try discriminate H; bm H; inv_some H;
     unfold ack_token_back; try match goal with |- context [match ?p with Connect _ => _ | _ => _ end] => destruct p end;
     dbc s; sfu; eauto 10.
-Time Qed.
+Qed.
 
 Definition ack_event (e : event) : bool :=
   match e with ETx _ _ true _ | EDie _ KTransport | EConnClose _ => true | _ => false end.
@@ -462,9 +462,12 @@ Lemma step_cleanup_shape s e s' : step_cleanup s e = Some s' ->
 Proof.
   intros H. unfold step_cleanup, guard in H. destruct (lp s) eqn:Elp; destruct e; try discriminate H; bm H; inv_some H;
     repeat match goal with Hx : _ && _ = true |- _ => apply andb_true_iff in Hx as [Hx ?] end;
-    dbc s; sfu; subst; do 4 eexists; (split; [reflexivity|]); (split; [discriminate|]);
+    unfold set_lp, freeze, set_ap, set_dp, set_pp;
+    cbn [conn_no sess clos gproc gdeq gack gcl ph pp dp ap lp dying will cw cpp cps tdeq tpub tsub ackq];
+    try match goal with Hx : will s = _ |- _ => rewrite <- Hx end;
+    do 4 eexists; (split; [reflexivity|]); (split; [discriminate|]);
     first [ left; repeat split; discriminate | right; repeat split; assumption ].
-Time Qed.
+Qed.
 
 Definition cleanup_event (e : event) : bool :=
   match e with EPub _ _ None | ETerm _ _ | EClosed | EPubRet _ _ | EDie _ KBackend => true | _ => false end.
@@ -490,7 +493,7 @@ Proof.
 Qed.
 
 (* the processor never changes the connection number, the role table or lp *)
-Time Lemma step_proc_frame s e s' : step_proc s e = Some s' ->
+Lemma step_proc_frame s e s' : step_proc s e = Some s' ->
   conn_no s' = conn_no s /\ gproc s' = gproc s /\ gdeq s' = gdeq s /\ gack s' = gack s /\ gcl s' = gcl s /\ lp s' = lp s.
 Proof.
   intros H. unfold step_proc, proc_dispatch, die_p, guard in H.
@@ -498,4 +501,20 @@ Proof.
     try match goal with |- context [take_deq_if_any ?x] => unfold take_deq_if_any, take_deq; destruct (0 <? tdeq x) end;
     try match goal with |- context [if ?b then _ else _] => destruct b end;
     sf; repeat split; reflexivity.
-Time Qed.
+Qed.
+
+Lemma take_deq_if_any_eq s : exists d, take_deq_if_any s = set_tok s d (tpub s) (tsub s).
+Proof.
+  unfold take_deq_if_any, take_deq. destruct (0 <? tdeq s); [eexists; reflexivity|].
+  exists (tdeq s). dbc s; reflexivity.
+Qed.
+
+Ltac inv_tdia :=
+  repeat match goal with
+  | |- context [take_deq_if_any ?x] =>
+      let d := fresh "d" in let E := fresh "E" in
+      destruct (take_deq_if_any_eq x) as [d E]; rewrite E in *; clear E
+  | H : context [take_deq_if_any ?x] |- _ =>
+      let d := fresh "d" in let E := fresh "E" in
+      destruct (take_deq_if_any_eq x) as [d E]; rewrite E in *; clear E
+  end.
